@@ -69,7 +69,7 @@ __CPROVER_decreases(g_n - (size_t)__CPROVER_POINTER_OFFSET(s))
 PRELUDE = r'''
 #include "vstr.h"
 size_t g_n, g_m;
-struct Token { const char *mStr; size_t mStrLen; const struct Token *mNext; int mVarId; enum TokType mTokType; uint64_t mFlags; };
+struct Token { const char *mStr; size_t mStrLen; const struct Token *mNext; int mVarId; enum TokType mTokType; uint64_t mFlags; const struct Token *mPrevious; bigint mNum; /* mPrevious, mNum: used by K33 only */ };
 static inline _Bool Token_streq(const struct Token *t, const char *lit) { return vstr_eq(t->mStr, t->mStrLen, lit); }
 static inline const struct Token *Token_next(const struct Token *t) { return t->mNext; }
 static inline int Token_varId(const struct Token *t) { return t->mVarId; }
@@ -214,8 +214,8 @@ static void mk_fields(struct Token *t) {
 '''
 
 
-def build(ctx):
-    kb = KernelBuild(ID, TITLE)
+def interpreter(kb, what=ID):
+    """C text of the Token model, the accessors of token.h and the extracted Token::Match interpreter (shared with K33)"""
     n = 0
     tt, tt_names = extract.enum_list("lib/token.h", r'enum\s+Type\s*:\s*std::uint8_t\s*\{\s*eVariable', "Token_")
     flags = extract.strip_comments(extract.read("lib/token.h"))
@@ -282,7 +282,13 @@ def build(ctx):
     out.append(t + "\n")
     kb.rules_fired = n
     base_text = "".join(out)
-    extract.residue_scan(base_text, ID)
+    extract.residue_scan(base_text, what)
+    return base_text
+
+
+def build(ctx):
+    kb = KernelBuild(ID, TITLE)
+    base_text = interpreter(kb)
 
     # ---- words
     src_words = source_words()
